@@ -2,8 +2,9 @@
     Statements only; proofs live in Reactive/Graph*Proofs.v and Reactive/Effects*Proofs.v.
 
     The model ([Reactive/Graph.v], [Effects.v]) transcribes MemoInner, the signal notification
-    path, Track::track, untrack, derived signals and effects.  [run_fixed p ops] is the state
-    after the history [ops] (set / notify / read / poll the k-th ready task / run to idle /
+    path, Track::track, untrack, derived signals and effects.  [run_fixed p par selw ops] is the state
+    after the history [ops] ([par]: the tree of owners the effects were created under; [selw]: which
+    effects are internal effects of selectors — both concern C02 only) (set / notify / read / poll the k-th ready task / run to idle /
     pause / resume / dispose of an effect / dispose of a signal or memo — every schedule is
     some [ops]).
 
@@ -28,8 +29,8 @@ Open Scope nat_scope.
     programs, all histories, all schedules; effects may write signals, except into their own
     static cone (F-C02-d). *)
 Theorem C01_invariant_in_every_reachable_state :
-  forall p, wf_prog p -> no_self_feed p ->
-  forall ops, wf_ops p ops -> Inv0 p (run_fixed p ops).
+  forall p par selw, wf_prog p -> no_self_feed p ->
+  forall ops, wf_ops p ops -> Inv0 p (run_fixed p par selw ops).
 Proof. exact reachable_inv. Qed.
 Print Assumptions C01_invariant_in_every_reachable_state.
 
@@ -48,10 +49,10 @@ Print Assumptions C01_invariant_in_every_reachable_state.
     not a change, the value logged for it stands, and a later run reads 0 for it (the harness's
     reading of try_get() = None).  The node read must itself not have been disposed.) *)
 Theorem C01_read_consistent :
-  forall p, wf_prog p -> no_self_feed p ->
+  forall p par selw, wf_prog p -> no_self_feed p ->
   forall ops n cm e s' v,
-  wf_ops p ops -> decl_of p n = DMemo cm e -> dead p (run_fixed p ops) n = false ->
-  read_top p n (run_fixed p ops) = (s', v) ->
+  wf_ops p ops -> decl_of p n = DMemo cm e -> dead p (run_fixed p par selw ops) n = false ->
+  read_top p n (run_fixed p par selw ops) = (s', v) ->
   cache (getn s' n) = Some v /\
   replay_body p n e (rlog (getn s' n)) = Some v /\
   ConsistentM p s' n.
@@ -64,24 +65,24 @@ Print Assumptions C01_read_consistent.
     denotational value of the node over the current signal values ([spec]: bodies evaluated
     recursively from the signals alone, no caches, no states), and the read changed no signal *)
 Theorem C01_read_eq_spec :
-  forall p, wf_prog p -> no_self_feed p ->
+  forall p par selw, wf_prog p -> no_self_feed p ->
   forall ops n s' v,
   uf_prog p -> exact_prog p -> wf_ops p ops -> n < length p -> memob p n = true ->
-  dead p (run_fixed p ops) n = false -> (forall i, dead p s' i = false) ->
-  read_top p n (run_fixed p ops) = (s', v) ->
-  spec p s' n = Some v /\ (forall i, sval (getn s' i) = sval (getn (run_fixed p ops) i)).
+  dead p (run_fixed p par selw ops) n = false -> (forall i, dead p s' i = false) ->
+  read_top p n (run_fixed p par selw ops) = (s', v) ->
+  spec p s' n = Some v /\ (forall i, sval (getn s' i) = sval (getn (run_fixed p par selw ops) i)).
 Proof. exact read_eq_spec. Qed.
 Print Assumptions C01_read_eq_spec.
 
 (** the same read, seen from the graph: signals untouched, n Clean with the value cached, the
     whole cone of tracked inputs current, a signal read returns its value *)
 Theorem C01_read_leaves_cone_current :
-  forall p, wf_prog p -> no_self_feed p ->
+  forall p par selw, wf_prog p -> no_self_feed p ->
   forall ops n s' v,
-  wf_ops p ops -> n < length p -> effb p n = false -> dead p (run_fixed p ops) n = false ->
-  read_top p n (run_fixed p ops) = (s', v) ->
+  wf_ops p ops -> n < length p -> effb p n = false -> dead p (run_fixed p par selw ops) n = false ->
+  read_top p n (run_fixed p par selw ops) = (s', v) ->
   Inv0 p s' /\
-  (forall i, sval (getn s' i) = sval (getn (run_fixed p ops) i)) /\
+  (forall i, sval (getn s' i) = sval (getn (run_fixed p par selw ops) i)) /\
   (memob p n = true -> st (getn s' n) = Clean /\ cache (getn s' n) = Some v /\ ConsistentM p s' n) /\
   (sigb p n = true -> v = sval (getn s' n)).
 Proof. exact read_consistent_cone. Qed.
@@ -97,10 +98,10 @@ Print Assumptions C01_clean_memo_eq_spec.
 
 (** reading again, with nothing written in between, returns the same value *)
 Theorem C01_read_idempotent :
-  forall p, wf_prog p -> no_self_feed p ->
+  forall p par selw, wf_prog p -> no_self_feed p ->
   forall ops n s1 v1 s2 v2,
-  wf_ops p ops -> n < length p -> memob p n = true -> dead p (run_fixed p ops) n = false ->
-  read_top p n (run_fixed p ops) = (s1, v1) -> read_top p n s1 = (s2, v2) -> v2 = v1.
+  wf_ops p ops -> n < length p -> memob p n = true -> dead p (run_fixed p par selw ops) n = false ->
+  read_top p n (run_fixed p par selw ops) = (s1, v1) -> read_top p n s1 = (s2, v2) -> v2 = v1.
 Proof. exact read_idempotent. Qed.
 Print Assumptions C01_read_idempotent.
 
